@@ -81,6 +81,26 @@ func checkC24(p *Prog, r *Report) {
 		r.floor("E2.hashcover-runtime", 35)
 		p.depsAccessorUnfiltered(r, "E2.dependencies-hashed-unfiltered", rhf)
 		p.revdepsIndexComplete(r, "E5.revdeps-index-complete")
+		p.globStateIsPerGlobber(r, "fs/E7.walk-cache-is-per-globber")
+		// a directory source is matched as name + "/": the name stored on a file label carries no trailing slash
+		if nfl := p.Fn("core", "NewFileLabel"); nfl == nil {
+			r.unresolved("E5.file-owner-recorded", "core.NewFileLabel")
+		} else {
+			norm := false
+			eachInstr(nfl, false, func(_ *ssa.Function, i ssa.Instruction) {
+				st, ok := i.(*ssa.Store)
+				if !ok || fieldKey(st.Addr) != "core.FileLabel.File" {
+					return
+				}
+				for t := range tagsOf(st.Val, SliceOpts{}) {
+					switch t {
+					case "call:strings.TrimRight", "call:strings.TrimSuffix", "call:path.Clean", "call:path/filepath.Clean":
+						norm = true
+					}
+				}
+			})
+			r.check(norm, "E5.file-owner-recorded", "a file label's name is normalised when it is created", p.pos(nfl.Pos()), fnName(nfl), "FileLabel.File is stored without a trailing slash (TrimRight / Clean)", "NewFileLabel keeps the name as written: HasSource matches files under a directory source with strings.HasPrefix(file, name+\"/\"), so for srcs = [\"test_data/\"] the needle is \"test_data//\", nothing under the directory has an owner, and changes there report no target")
+		}
 	}
 	// (2) diffGraphs
 	rule = "E5.diff-marks-changed"
